@@ -42,7 +42,7 @@ func c15Guarded(e string) (string, bool) {
 	if !ok {
 		return "", false
 	}
-	u := strings.ToUpper(k)
+	u := c15AsciiFold(k)
 	if _, g := c15Want[u]; g {
 		return u, true
 	}
@@ -59,7 +59,7 @@ func c15Resolve(env []string, key string, lastWins, caseSensitive bool) (string,
 		}
 		match := k == key
 		if !caseSensitive {
-			match = strings.EqualFold(k, key)
+			match = c15AsciiFold(k) == c15AsciiFold(key)
 		}
 		if match {
 			if found && !lastWins {
@@ -117,7 +117,7 @@ func c15Check(ambient, hardened []string) string {
 		var r []string
 		for _, e := range l {
 			k, _ := c15Key(e)
-			u := strings.ToUpper(k)
+			u := c15AsciiFold(k)
 			if u == "GONOSUMDB" || u == "GO111MODULE" {
 				continue
 			}
@@ -193,7 +193,10 @@ func c15Alphabet() []string {
 	}
 	// look-alikes that must pass through, and unrelated variables
 	al = append(al, "GOPROXYX=https://x", "XGOPROXY=1", "CGO_ENABLED_X=1", "GOFLAGSS=-mod=mod", "GOTOOLCHAIN_=auto", "GO=1",
-		"HOME=/nonexistent", "PATH=/usr/bin", "LANG=C", "EMPTY=", "A=b=c")
+		"HOME=/nonexistent", "PATH=/usr/bin", "LANG=C", "EMPTY=", "A=b=c",
+		// names that only BECOME a guarded key under Unicode case mapping (long s U+017F -> S,
+		// dotless i U+0131 -> I, Kelvin sign U+212A -> K): unrelated variables on this platform
+		"GOFLAG\u017f=x", "GOTOOLCHA\u0131N=x", "GOWOR\u212a=x")
 	return al
 }
 
@@ -510,4 +513,17 @@ func TestVerifC15Loader(t *testing.T) {
 			}
 		}
 	}
+}
+
+// c15AsciiFold folds ASCII letters only: environment names are compared case-insensitively the way a
+// case-insensitive platform does for the guarded keys (all ASCII); Unicode case mapping would
+// make unrelated names such as "GOWOR\u212a" (Kelvin sign) look like a guarded key.
+func c15AsciiFold(s string) string {
+	b := []byte(s)
+	for i, c := range b {
+		if c >= 'a' && c <= 'z' {
+			b[i] = c - 32
+		}
+	}
+	return string(b)
 }
